@@ -13,6 +13,7 @@ INVARIANT TypeOK
 INVARIANT RcInvolution
 INVARIANT ComplementLaws
 INVARIANT ComplementRcLaw
+INVARIANT ReprIndependent
 INVARIANT EncodeResolveInverse
 INVARIANT SixFrameLaw
 INVARIANT AnticodonFrameLaw
